@@ -39,8 +39,12 @@ def check(run):
                 "operator combination incl. exclusion list + bound and Lt 0) and seeded chains of 3-6 atoms are serialised "
                 "by the real code directly and through NodePool -> NewNodeClaimTemplate -> ToNodeClaim (when RuntimeValidate "
                 "accepts the pool), re-parsed, and Any() is drawn 8 times; non-trivial = a bound is involved or ToNodeClaim ran")
-    for st in STAGES:
-        st(run)
+    # the stages are independent (own scenarios, own trace files, own TLC jobs): they run side by side on one harness build
+    import concurrent.futures as cf
+    run.build_drv()
+    with cf.ThreadPoolExecutor(max_workers=len(STAGES)) as ex:
+        for fut in [ex.submit(st, run) for st in STAGES]:
+            fut.result()
     run.assumptions.append("stage 1 covers parts (a) and (e) at the requirement / template level; stage 2 (checks/c13_sched_stage.py, "
                            "Weights_Trace.tla) decides (b)-(d) on NodeClaims created by the real Provisioner.CreateNodeClaims")
 
